@@ -161,7 +161,16 @@ func genC11(driver string, col *ev.Collector) func(*rapid.T) c11Case {
 			// half of the Maven packages publish -SNAPSHOT / -M1 / -rc1 / .Final / -jre versions
 			cfg.MavenFlavours = 50
 		}
-		c := c11Case{Driver: driver, Scenario: universe.GenScenario(t, cfg)}
+		c := c11Case{Driver: driver}
+		if driver == drvNpmRelax && pct(t, "chain?") < 15 {
+			// version chains of one or two direct dependencies: each relaxation trades the
+			// advisories of one version for those of the next, so follow-up attempts come several
+			// at a time and one advisory set is reached by more than one route
+			c.Scenario = universe.GenChainScenario(t, universe.ChainConfig{
+				Steps: []string{universe.LevelMajor, universe.LevelMinor, universe.LevelPatch}, Levels: true})
+		} else {
+			c.Scenario = universe.GenScenario(t, cfg)
+		}
 		switch driver {
 		case drvMavenUpdate:
 			c.Vulns = nil // Update does not look at vulnerabilities
@@ -229,6 +238,9 @@ func groupsOf(ups []universe.Update) []changeGroup {
 func propC11Fix(c c11Case) (ev.Outcome, error) {
 	cls := map[string]bool{}
 	out := func(nt bool) ev.Outcome { return ev.Outcome{NonTrivial: nt, Classes: prefixed(c.Driver, cls)} }
+	if c.Family != "" {
+		cls["scenario_"+c.Family] = true
+	}
 	budget := c.DefaultBudget()
 	w, err := c.Materialise(budget)
 	if err != nil {
@@ -254,7 +266,7 @@ func propC11Fix(c c11Case) (ev.Outcome, error) {
 		res       result.Result
 		fixErr    error
 	)
-	if !guarded(func() {
+	if done, blocked := guardedProgress(func() {
 		proposals, found, propErr = allPatches(w, pathA, ro.build(c.Levels))
 		res, fixErr = guidedremediation.FixVulns(options.FixVulnsOptions{
 			Manifest:           pathB,
@@ -265,9 +277,12 @@ func propC11Fix(c c11Case) (ev.Outcome, error) {
 			ResolveClient:      w.Client,
 			RemediationOptions: ro.build(c.Levels),
 		})
-	}) {
+	}, w.Client.Calls); !done {
 		if w.Client.Exceeded() {
 			return out(false), fmt.Errorf("non-termination: more than %d resolve-client calls and no result after %v", budget, watchdogLimit)
+		}
+		if blocked {
+			return out(false), fmt.Errorf("non-termination: the patch computation has not returned and has made no resolve-client call for minutes (%d calls in all): it waits for something that never comes", w.Client.Calls())
 		}
 		cls["watchdog_inconclusive"] = true
 		return out(false), nil
